@@ -73,6 +73,10 @@ def run_cli(
         paths.insert(0, str(MONITOR_DIR))
         env["RPV_AUDIT_LOG"] = audit_log
         env["RPV_PACKAGE_ROOT"] = os.path.join(os.path.realpath(rp2_src()), "rp2") + os.sep
+    if os.environ.get("RPV_REACH_LOG") and not audit:
+        # reach recording (tools_reach.py): the injected sitecustomize starts it; audit recording stays off
+        paths.insert(0, str(MONITOR_DIR))
+        env["RPV_PACKAGE_ROOT"] = os.path.join(os.path.realpath(rp2_src()), "rp2") + os.sep
     env["PYTHONPATH"] = os.pathsep.join(paths)
     env["PYTHONDONTWRITEBYTECODE"] = "1"
     env["PYTHONHASHSEED"] = hashseed
